@@ -402,3 +402,19 @@ def under_debug(suite, n=8):
     inst = Debugged.__new__(Debugged)
     inst.__dict__.update(suite.__dict__)
     return inst
+
+
+def under_bufsize(suite, size, n=8):
+    """the same suite with DISSECT_STREAM_BUFFER_SIZE=size (any multiple of 512 is valid: 1536, 12288 ... need not divide
+    or be divided by the image's allocation unit), on the first n generated cases"""
+    base = type(suite)
+
+    class Buffered(base):
+        name = f"{suite.name}_buf{size}"
+        env = dict(getattr(suite, "env", None) or {}, DISSECT_STREAM_BUFFER_SIZE=str(size))
+
+        def generate(self, rng, tier):
+            return base.generate(self, rng, tier)[: (3 * n if tier == "thorough" else n)]
+    inst = Buffered.__new__(Buffered)
+    inst.__dict__.update(suite.__dict__)
+    return inst
